@@ -521,4 +521,39 @@ theorem getConn_error_state {s s' : State} {e : Exc} (hg : getConn s = (s', .err
       · simp [newConn] at hg
     · split at hg <;> simp [newConn] at hg
 
+/-! ### `_get_conn(timeout=pool_timeout)` with a `pool_timeout` that `queue.get` rejects -/
+
+/-- either the call behaves as with a valid `pool_timeout`, or — open `block=True` pool, negative
+`pool_timeout` — it raises `ValueError` and the state is untouched -/
+theorem getConnT_cases (s : State) (b : Bool) :
+    getConnT s b = getConn s ∨
+    (getConnT s b = (s, .error (exc Gen.cValueError)) ∧ s.closed = false ∧ s.block = true ∧ b = true) := by
+  unfold getConnT
+  split
+  · rename_i hc
+    simp only [Bool.and_eq_true, Bool.not_eq_eq_eq_not, Bool.not_true] at hc
+    exact Or.inr ⟨rfl, hc.1.1, hc.1.2, hc.2⟩
+  · exact Or.inl rfl
+
+theorem getConnT_false (s : State) : getConnT s false = getConn s := by
+  simp [getConnT]
+
+theorem getConnT_inv {s s' : State} {b : Bool} {c : Nat} (h : Inv s) (hg : getConnT s b = (s', .ok c)) : InvL s' [c] := by
+  rcases getConnT_cases s b with hT | ⟨hT, -⟩
+  · rw [hT] at hg; exact getConn_inv h hg
+  · rw [hT] at hg; cases hg
+
+/-- whatever `_get_conn` raises, nothing has been taken -/
+theorem getConnT_error_state {s s' : State} {b : Bool} {e : Exc} (hg : getConnT s b = (s', .error e)) : s' = s := by
+  rcases getConnT_cases s b with hT | ⟨hT, -⟩
+  · rw [hT] at hg; exact getConn_error_state hg
+  · rw [hT] at hg; cases hg; rfl
+
+/-- `ValueError` is none of `urlopen`'s `except` clauses: it propagates unchanged -/
+theorem handleError_valueError (u : Bool) (rt : Retry) (m : Bool) : handleError u rt m Gen.cValueError = .propagate := by
+  unfold handleError
+  rw [if_neg (by decide), if_neg (by decide)]
+
+theorem discard_none (s : State) : discard s none = (s, none) := rfl
+
 end U3.Pool
